@@ -369,6 +369,12 @@ fn spawn_async_ao_list_in_task'''),
         if candidate_fd_num == 0 {''', '''        candidate_fd_num -= 1;
         if candidate_fd_num < 0 {'''),
     ],
+    'U16': [
+        ('tilde-not-flagged-at-start', 'brush-core/src/escape.rs', "    matches!(c, '#' | '~')", "    matches!(c, '#')"),
+        ('bang-not-flagged', 'brush-core/src/escape.rs', "            | '!'\n", ""),
+        ('del-not-control', 'brush-core/src/escape.rs', "    c.is_ascii_control()", "    (c as u32) < 0x20"),
+        ('dq-backquote-not-escaped', 'brush-core/src/escape.rs', "if matches!(c, '$' | '`' | '\"' | '\\\\') {", "if matches!(c, '$' | '\"' | '\\\\') {"),
+    ],
     'U20': [
         ('gap-ge', HL, 'if range.start > self.current_byte_index {', 'if range.start >= self.current_byte_index {'),
         ('push-empty-range', HL, '        if !range.is_empty() {', '        if true {'),
